@@ -4,33 +4,42 @@
     `Start::next`. The property is the decidable predicate [c11_pred] (Proofs/BinSpec.v):
     as many rounds as the loop side ran, then Terminate and nothing else; in EVERY round the
     whole side input, exactly once, in its original order, and each end-of-side marker
-    exactly once; the loop side's own data all there, in order. *)
+    exactly once; the loop side's own data all there, in order.
+    History: on the pinned tree the statement was false as soon as the loop side had two
+    replicas (finding F10: the first Terminate batch consumed `first_message` and the cache
+    was replayed once more after the final FlushAndRestart); repaired by a `fix:` commit,
+    after which the general theorem below holds. *)
 From Noir Require Import Base.Elem Model.Start Model.BinaryStart Corr.BinCorr
   Proofs.BinSpec Proofs.BinaryStartProofs.
 Open Scope Z_scope.
 
-(** Full statement on the model:
-      forall nl nr ds, consumable-shape ds -> c11_pred nl nr true false ds (brun nl nr true false ds) = true
-    It is FALSE of the faithful model (and of the implementation) as soon as the loop side
-    has two replicas: known finding F10 (the cache is replayed once more after the final
-    FlushAndRestart, directly followed by Terminate). *)
-Theorem C11_refuted_two_loop_replicas :
-  exists ds : list del, c11_pred 1 2 true false ds (brun 1 2 true false ds) = false.
-Proof. exact c11_refuted_two_loop_replicas. Qed.
+(** The side input (left, [nl] replicas, any batching: empty, one batch, many batches) is
+    cached during the first round — in ANY interleaving with the first round of the [nr]
+    loop-side replicas — and presented completely, identically and exactly once in every one
+    of the [1 + length later] rounds, each later round being ANY interleaving of the loop-side
+    replicas' batches; the loop terminates (the Terminates of the loop side in any order) and
+    the end of the outside stream is propagated once ([Terminate] once, last). *)
+Theorem C11_replay_general : forall (nl nr : nat) (round1 : list del) (later : list (list del)) (terms : list nat),
+  (1 <= nl)%nat -> (1 <= nr)%nat -> c11_shape_n nl nr round1 later terms = true ->
+  c11_pred nl nr true false (c11_deliveries_n round1 later terms)
+           (brun nl nr true false (c11_deliveries_n round1 later terms)) = true.
+Proof. exact c11_replay_general. Qed.
 
-(** Proved form: the side input (left, any number [nl] of replicas, any batching: empty, one
-    batch, many batches) is cached during the first round — in ANY interleaving with the loop
-    side's first round — and presented completely, identically and exactly once in every one
-    of the [1 + length later] rounds of a loop side with one replica; the loop terminates
-    and the end of the outside stream is propagated once ([Terminate] once, last). *)
+(** the one-loop-replica instance in the original formulation *)
 Theorem C11_replay : forall (nl : nat) (round1 : list del) (later : list (list (list (elem Z)))),
   (1 <= nl)%nat -> c11_shape nl round1 later = true ->
   c11_pred nl 1 true false (c11_deliveries round1 later)
            (brun nl 1 true false (c11_deliveries round1 later)) = true.
 Proof. exact c11_replay. Qed.
 
-(** Non-vacuity: a shape that meets the hypotheses, with two side replicas, interleaved
-    first round, three loop rounds. *)
+(** regression witness for F10: two loop-side replicas, Terminates arriving one by one *)
+Theorem C11_two_loop_replicas_witness :
+  let ds : list del := [DL 0%nat [Item 1; FAR]; DL 0%nat [Terminate]; DR 0%nat [Item 10; FAR];
+                        DR 1%nat [FAR]; DR 0%nat [Terminate]; DR 1%nat [Terminate]] in
+  c11_pred 1 2 true false ds (brun 1 2 true false ds) = true.
+Proof. exact c11_two_loop_replicas_witness. Qed.
+
+(** Non-vacuity: two side replicas, interleaved first round, three loop rounds *)
 Example C11_example :
   let r1 : list del := [DL 0%nat [Item 1; Wm 3]; DR 0%nat [Item 10; FAR]; DL 1%nat [FAR];
                         DL 0%nat [Item 2; FAR]; DL 1%nat [Terminate]; DL 0%nat [Terminate]] in
@@ -42,5 +51,5 @@ Example C11_example :
      Item BREnd; Item (BL 1); Item (BL 2); Item BLEnd; FAR; Terminate].
 Proof. split; vm_compute; reflexivity. Qed.
 
-Print Assumptions C11_refuted_two_loop_replicas.
+Print Assumptions C11_replay_general.
 Print Assumptions C11_replay.
